@@ -1,5 +1,117 @@
-/- C04 — placeholder until the theorems are in; not claimed in MANIFEST.json while this comment stands. -/
+/-
+C04 — Numeric parameters decode to the value their literal denotes.
+Property theorems only; helper lemmas in ScpiVerif/Lemmas/Numeric.lean.
+
+PARTIAL (DESIGN.md section 7/C04): proved are (a) which text the readers hand to the C library's
+conversion functions, (b) the exact integer values (the strto* specification of Model/Prim.lean
+computes them), (c) everything about the generated unit and special-number tables.  That the C
+library's strtod / strtof round correctly is trusted (and compared bit-exactly against
+Spec/Float.lean on every run).  Known finding: white space that 488.2 allows inside a literal (before
+the exponent, after its E) ends the conversion early — `conversion_sees_literal` is therefore proved
+only for literals without inner white space and `conversion_counterexample` shows the failure.
+-/
 import ScpiVerif.Model.Ctx
 import ScpiVerif.Spec.Float
+import ScpiVerif.Spec.Params
+import ScpiVerif.Props.C13
+import ScpiVerif.Lemmas.Numeric
+
 namespace ScpiVerif.Props.C04
+open ScpiVerif ScpiVerif.Lexer ScpiVerif.Spec
+
+/-- the decimal literal at the start of `s` as the token specification delimits it -/
+def literalAt (s : Bytes) : Option Bytes := (specToken .decimal s).map (fun e => s.take e.consumed)
+
+/-
+NOT YET PROVED (false, see conversion_counterexample): for EVERY decimal literal `t` delimited by the lexer
+in `mem` at `off`, the prefix strtod converts is `t`:   Prim.strtodLen mem off = t.length
+-/
+
+/-- the conversion sees the whole literal: for a literal without inner white space, whatever follows it in
+memory, strtod / strtof convert exactly the token the lexer delimited -/
+theorem conversion_sees_literal_partial (mem : Bytes) (off : Nat) (t : Bytes)
+    (h : literalAt (mem.drop off) = some t) (hws : ∀ b ∈ t, b ≠ 32 ∧ b ≠ 9) :
+    Prim.strtodLen mem off = t.length := Lemmas.Numeric.conversion_sees_literal_partial mem off t h hws
+
+/-- …and the converted text denotes a number (so that Spec/Float.lean gives its correctly rounded value) -/
+theorem literal_has_value (s t : Bytes) (h : literalAt s = some t) : (Spec.Float.litValue t).isSome = true :=
+  Lemmas.Numeric.literal_has_value s t h
+
+/-- the failure: "1 E3" is one literal for the lexer (value 1000) but strtod converts only "1" -/
+theorem conversion_counterexample :
+    literalAt [49, 32, 69, 51] = some [49, 32, 69, 51] ∧ Prim.strtodLen [49, 32, 69, 51] 0 = 1 ∧
+    Spec.Float.litValue [49, 32, 69, 51] = some (false, 1000, 1) := by decide +kernel
+
+/-- decimal integer literals (optional sign, digits) in range decode exactly, in all four widths -/
+theorem integer_exact_signed (w : Nat) (hw : w = 32 ∨ w = 64) (mem : Bytes) (off : Nat) (t : Bytes) (v : Int)
+    (ht : Params.intLiteral t = some v) (hin : (mem.drop off).take t.length = t)
+    (hnext : ∀ b, (mem.drop (off + t.length)).head? = some b → ¬ (48 ≤ b ∧ b ≤ 57))
+    (hr : -(2^(w-1) : Int) ≤ v ∧ v < 2^(w-1)) :
+    Prim.strtolTo w mem off 10 = (t.length, v) := Lemmas.Numeric.integer_exact_signed w hw mem off t v ht hin hnext hr
+
+theorem integer_exact_unsigned (w : Nat) (hw : w = 32 ∨ w = 64) (mem : Bytes) (off : Nat) (t : Bytes) (v : Int)
+    (ht : Params.intLiteral t = some v) (hin : (mem.drop off).take t.length = t)
+    (hnext : ∀ b, (mem.drop (off + t.length)).head? = some b → ¬ (48 ≤ b ∧ b ≤ 57))
+    (hr : 0 ≤ v ∧ v < 2^w) :
+    Prim.strtoulTo w mem off 10 = (t.length, v.toNat) := Lemmas.Numeric.integer_exact_unsigned w hw mem off t v ht hin hnext hr
+
+/-- #H / #Q / #B digits up to the type width decode exactly -/
+theorem nondecimal_exact (w : Nat) (hw : w = 32 ∨ w = 64) (ty : TokType) (base : Nat)
+    (hb : (ty = .hexnum ∧ base = 16) ∨ (ty = .octnum ∧ base = 8) ∨ (ty = .binnum ∧ base = 2))
+    (mem : Bytes) (off : Nat) (ds : Bytes) (hds : ds ≠ [])
+    (hdig : ∀ b ∈ ds, match Prim.digitVal b with | some d => d < base | none => False)
+    (hin : (mem.drop off).take ds.length = ds)
+    (hnext : ∀ b, (mem.drop (off + ds.length)).head? = some b → (match Prim.digitVal b with | some d => ¬ d < base | none => True) ∧ b ≠ 120 ∧ b ≠ 88)
+    (hr : Params.nondecimalValue ty ds < 2^w) :
+    Prim.strtoulTo w mem off base = (ds.length, Params.nondecimalValue ty ds) :=
+  Lemmas.Numeric.nondecimal_exact w hw ty base hb mem off ds hds hdig hin hnext hr
+
+/-! ### the unit table (GENERATED from units.c) -/
+
+/-- no two unit names are equal ignoring case -/
+theorem unit_names_distinct :
+    ∀ i j, i < Gen.unitsDef.length → j < Gen.unitsDef.length → i ≠ j →
+      Pattern.ciEq (Gen.unitsDef[i]!).1.toUTF8.toList (Gen.unitsDef[j]!).1.toUTF8.toList = false :=
+  Lemmas.Numeric.unit_names_distinct
+
+/-- every unit name is consumed whole by the suffix recogniser (so `<number><name>` and `<number> <name>` lex as one token) -/
+theorem unit_names_lex_whole :
+    ∀ u ∈ Gen.unitsDef, (Lexer.lexSuffix u.1.toUTF8.toList 0).2.2 = u.1.toUTF8.toList.length :=
+  Lemmas.Numeric.unit_names_lex_whole
+
+/-- any casing of a unit name resolves to that row: unit tag and multiplier -/
+theorem translateUnit_finds (s : Bytes) (u : String × Nat × Nat × Nat) (hu : u ∈ Gen.unitsDef)
+    (hs : Pattern.ciEq s u.1.toUTF8.toList = true) :
+    Ctx.translateUnit s = some (u.2.1, u.2.2.1, u.2.2.2) := Lemmas.Numeric.translateUnit_finds s u hu hs
+
+/-- IEEE 488.2 table 7-2 prefixes: (name, power of ten) -/
+def siPrefixes : List (String × Int) :=
+  [("EX", 18), ("PE", 15), ("T", 12), ("G", 9), ("MA", 6), ("K", 3), ("M", -3), ("U", -6), ("N", -9), ("P", -12), ("F", -15), ("A", -18)]
+
+/-- rows the prefix rule does not explain, with their physical multipliers (numerator, denominator) -/
+def listedRows : List (String × Nat × Nat) :=
+  [("MNT", 1, 60), ("SEC", 1, 3600), ("MG", 1, 1000000), ("G", 1, 1000), ("TNE", 1000, 1), ("PCT", 1, 100), ("PPM", 1, 1000000), ("MIN", 60, 1), ("HR", 3600, 1)]
+
+/-- does the prefix rule explain row (name, unit, num/den)?  name = prefix ++ base name of a multiplier-1 row with the same
+unit, multiplier = 10^power, where M means 10^6 before OHM and HZ -/
+def explainedByPrefix (row : String × Nat × Nat × Nat) : Bool :=
+  Gen.unitsDef.any (fun base =>
+    base.2.2.1 == 1 && base.2.2.2 == 1 && base.2.1 == row.2.1 &&
+    siPrefixes.any (fun p =>
+      row.1 == p.1 ++ base.1 &&
+      (let pw : Int := if p.1 == "M" ∧ (base.1 == "OHM" ∨ base.1 == "HZ") then 6 else p.2
+       if pw ≥ 0 then row.2.2.1 == 10^pw.toNat && row.2.2.2 == 1 else row.2.2.1 == 1 && row.2.2.2 == 10^(-pw).toNat)))
+
+/-- every row of the generated table has multiplier 1, or is explained by the prefix rule, or is one of the nine listed rows -/
+theorem unit_prefix_rule :
+    ∀ row ∈ Gen.unitsDef, (row.2.2.1 = 1 ∧ row.2.2.2 = 1) ∨ explainedByPrefix row = true ∨
+      listedRows.contains (row.1, row.2.2.1, row.2.2.2) = true :=
+  Lemmas.Numeric.unit_prefix_rule
+
+/-- the special mnemonics: every name of the generated table, in short and long form and any case, maps to its tag -/
+theorem special_mnemonics (s : Bytes) (p : String × Int) (hp : p ∈ Gen.specialNumbersDef)
+    (hs : Params.nameMatches p.1.toUTF8.toList s = true) :
+    (Ctx.specialDef.find? (fun o => Ctx.matchName o.1 s)).map (·.2) = some p.2 :=
+  Lemmas.Numeric.special_mnemonics s p hp hs
+
 end ScpiVerif.Props.C04
